@@ -164,7 +164,7 @@ def _dm(occ, coeffs, nb):
 def h_unrestricted(ctx, norb=2, nbasis=2, with_ab=False, opt="all", twin=False):
     A, B, C, I, O, P = _mods()
     with stubbed(A, C, O):
-        occs = ctx.real_array("occ", (norb,), lo=0, hi=2)
+        occs = ctx.real_array("occ", (norb,), lo=-0.5, hi=2.5)
         ab = ctx.real_array("ab", (norb,), lo=-2, hi=2) if with_ab else None
         coeffs = ctx.real_array("c", (nbasis, norb)) if opt in ("all", "coeffs") else None
         energies = ctx.real_array("e", (norb,)) if opt == "all" else None
